@@ -136,10 +136,13 @@ def layout(rc):
             if isinstance(st_, ast.Assign) and len(st_.targets) == 1 and isinstance(st_.targets[0], ast.Name):
                 env[st_.targets[0].id] = eval_expr(st_.value, env)
             elif isinstance(st_, ast.If):
-                t = norm(st_.test)
+                tt, neg = st_.test, False
+                while isinstance(tt, ast.UnaryOp) and isinstance(tt.op, ast.Not):
+                    tt, neg = tt.operand, not neg
+                t = norm(tt)
                 if t == "inplace":
-                    yield ("inplace", st_.body, Env(env))
-                    yield ("outofplace", st_.orelse, Env(env))
+                    yield ("inplace", st_.orelse if neg else st_.body, Env(env))
+                    yield ("outofplace", st_.body if neg else st_.orelse, Env(env))
                     return
                 yield from run_block(st_.body, env)
                 return
@@ -149,8 +152,14 @@ def layout(rc):
     # locate the `if new_order != self.variables[1:]` block
     blk = None
     for n in walk_no_nested(rp.node):
-        if isinstance(n, ast.If) and "new_order" in norm(n.test) and "variables[1:]" in norm(n.test) and isinstance(n.test, ast.Compare) and isinstance(n.test.ops[0], ast.NotEq):
-            blk = n
+        if not isinstance(n, ast.If):
+            continue
+        tt, neg = n.test, False
+        while isinstance(tt, ast.UnaryOp) and isinstance(tt.op, ast.Not):
+            tt, neg = tt.operand, not neg
+        if "new_order" in norm(tt) and "variables[1:]" in norm(tt) and isinstance(tt, ast.Compare) and isinstance(tt.ops[0], (ast.NotEq, ast.Eq)):
+            differs_in_body = isinstance(tt.ops[0], ast.NotEq) != neg
+            blk = n if differs_in_body else ast.If(test=tt, body=n.orelse, orelse=n.body)
     if blk is None:
         raise AnalysisError("reorder_parents: cannot find the re-ordering branch")
     want_vars = ["V"] + new_order
@@ -301,6 +310,11 @@ def validate(rc):
         t, pol = s.conds[-1]
         txt = norm(t, 300)
         k = None
+        if not pol and tm.is_(t, "_c.is_valid_cpd()") is not None:
+            k = "columns sum to one"
+            kinds[k] = s
+            rc.ob(f"check_model raises unless {k}: guard `not {txt[:70]}`")
+            continue
         if not pol:
             continue
         if tm.is_(t, "_c is None") is not None:
